@@ -28,12 +28,15 @@ Definition content (bs : list block) : list bcontent := map content1 bs.
 Definition wf_fmt (f : fmt) : Prop :=
   Forall (fun c => isspace c = true) (f_indent f) /\ Forall (fun c => isspace c = true) (f_sep f).
 
-(* known finding K7: an entry key or an explicit comment whose (stripped) text ends in a backslash is written
-   directly in front of the structural ',' / '}' which it thereby escapes *)
+(* known finding K7: an entry key, an explicit comment, a field value or a @string value whose (stripped) text
+   ends in a backslash is written directly in front of the structural ',' / '}' which it thereby escapes
+   (`@comment{a \\<newline>}`, `@a{k, x = ab\ }`) *)
 Definition ends_in_bs (s : str) : bool := match rv s with c :: _ => (c =? c_bs)%N | [] => false end.
+Definition value_ends_in_bs (v : value) : bool := match v with VStr s => ends_in_bs s | _ => false end.
 Definition k7_block (b : block) : bool :=
   match b with
-  | BEntry _ _ k _ => ends_in_bs k
+  | BEntry _ _ k fs => ends_in_bs k || existsb (fun f => value_ends_in_bs (fval f)) fs
+  | BString _ _ v => value_ends_in_bs v
   | BExpl _ c => ends_in_bs c
   | _ => false
   end.
